@@ -217,10 +217,21 @@ func init() {
 			// "every remaining element": a delegate that has reported exhaustion delivers nothing more when it is
 			// delegated to again (a delegation starts with MoveNext)
 			c.guard("SEQ.GEN", s.ruleGenHist)
+			// a delegation is seen wherever a yield is looked for (for-post, initialisers), under every import form,
+			// and a function whose only yield is a delegation is a generator
+			c.guard("RW.ORACLE", r.ruleOracles)
+			c.guard("RW.SIG", r.ruleSig)
 			c.keep(func(o Obligation) bool {
 				switch o.Rule {
+				case "RW.ORACLE":
+					return o.Construct == "containsYield"
+				case "RW.SIG":
+					return strings.HasPrefix(o.Construct, "one result of the iterator type")
 				case "RW.FILEPASSES":
-					return strings.HasPrefix(o.Construct, "order of passes")
+					// the delegation pass sees the form its predecessors produce, and it starts from scratch for every
+					// file (an instance kept from the previous file patches the type information of the wrong package:
+					// the synthetic Yield is then not recognised and the delegate is drained natively)
+					return strings.HasPrefix(o.Construct, "order of passes") || strings.HasPrefix(o.Construct, "per-file state")
 				case "SEQ.GEN": // only: an exhausted delegate stays exhausted; a delegation advances with MoveNext
 					return strings.HasPrefix(o.Construct, "MoveNext") || o.Construct == "coverage"
 				case "RW.TMPL.FORPOST":
@@ -257,6 +268,9 @@ func init() {
 			// same value is pulled or ranged over again
 			s6 := newSeqRT(c)
 			c.guard("SEQ.GEN", s6.ruleGenHist)
+			// inside a generator a consumer loop is lowered to a condition-only runtime loop whose condition is
+			// the pull: the runtime evaluates that condition exactly once per iteration, and not again after a break
+			c.guard("SEQ.FOR", func() { s6.ruleForOnly(func(fc forCase) bool { return fc.postNil }) })
 			c.keep(func(o Obligation) bool {
 				switch o.Rule {
 				case "SEQ.GEN":
